@@ -122,6 +122,33 @@ def doError (e : GoError) : GoError :=
   | some _ => e1
   | none => .coded 14 e1
 
+/-- `wrapIfContextDone(ctx, err)` (fix F16): an uncoded error of a call whose context has ended
+    (`done = some k`: `ctx.Err()` is Canceled / DeadlineExceeded) is coded by the context's state,
+    whatever the error looks like — net/http reports `context.Cause(ctx)`, which for contexts made
+    with `WithCancelCause` / `WithTimeoutCause` wraps neither sentinel. -/
+def wrapIfContextDone (done : Option CtxKind) (e : GoError) : GoError :=
+  match e.asError with
+  | some _ => e
+  | none =>
+    match done with
+    | some k => .coded (ctxCode k) e
+    | none => e
+
+/-- `duplexHTTPCall.Read` after fix F16: `done` is the state of the call's context when the body
+    read has failed -/
+def duplexReadErrorDone (stored : Option GoError) (done : Option CtxKind) (bodyErr : GoError) : GoError :=
+  if bodyErr.isEOF then duplexReadError bodyErr
+  else match stored with
+    | some s => s
+    | none => duplexReadError (wrapIfContextDone done (wrapIfContextError bodyErr))
+
+/-- `duplexHTTPCall.makeRequest` on a failing `Do` after fix F16 -/
+def doErrorDone (done : Option CtxKind) (e : GoError) : GoError :=
+  let e1 := wrapIfRSTError (wrapIfContextDone done (wrapIfContextError e))
+  match e1.asError with
+  | some _ => e1
+  | none => .coded 14 e1
+
 /-- `SetError`: the first error is stored, context errors coded -/
 def setError (stored : Option GoError) (e : GoError) : Option GoError :=
   match stored with
@@ -140,6 +167,28 @@ def envelopePayloadError (e : GoError) : GoError :=
   match e.asError with
   | some _ => e
   | none => .coded codeUnknown (.wrap e)
+
+/-- … and while *discarding* the payload of a message that is over the read limit
+    (`io.CopyN(io.Discard, …)`): running out of body is still "too large"; any other failure is
+    reported — after fix F19 with the code it already has -/
+def envelopeDiscardError (e : GoError) : GoError :=
+  if e.isEOF then .coded codeInvalidArgument .opaque
+  else match e.asError with
+    | some _ => e
+    | none => .coded codeUnknown (.wrap e)
+
+/-- the discard path as it was before fix F19: `errorf(CodeUnknown, "read enveloped message: %w", err)` -/
+def envelopeDiscardErrorPinned (e : GoError) : GoError :=
+  if e.isEOF then .coded codeInvalidArgument .opaque else .coded codeUnknown (.wrap e)
+
+/-- `connectUnaryUnmarshaler.UnmarshalFunc` when discarding the rest of an over-limit body fails
+    with `e` (`io.Copy` never reports io.EOF); after fix F19 a coded error keeps its code -/
+def unaryDiscardError (e : GoError) : GoError :=
+  match e.asError with
+  | some _ => e
+  | none => .coded codeInvalidArgument (.wrap e)
+
+def unaryDiscardErrorPinned (e : GoError) : GoError := .coded codeInvalidArgument (.wrap e)
 
 /-- the error `Send` returns when the *prefix* write fails with `e` (`envelopeWriter.write`:
     an already coded error is returned as is) -/
